@@ -10,6 +10,7 @@ import YowsupVerif.Drv.Store
 import YowsupVerif.Drv.Media
 import YowsupVerif.Drv.Reg
 import YowsupVerif.Drv.Config
+import YowsupVerif.Drv.Iq
 open Yow Yow.Drv
 
 structure DrvState where
@@ -17,11 +18,13 @@ structure DrvState where
   stack : StackSt := {}
   locks : LocksSt := {}
   store : Yow.Store.Db := Yow.Store.empty
+  iq : Yow.Iq.St := Yow.Iq.init
 
 def step (s : DrvState) (line : String) : DrvState × String :=
   match (line.splitOn " ").filter (· ≠ "") with
   | "seg" :: rest => let r := segStep s.seg rest; ({ s with seg := r.1 }, r.2)
   | "coder" :: rest => (s, coderStep rest)
+  | "iq" :: rest => let r := iqStep s.iq rest; ({ s with iq := r.1 }, r.2)
   | "cfg" :: rest => (s, configStep rest)
   | "reg" :: rest => (s, regStep rest)
   | "media" :: rest => (s, mediaStep rest)
